@@ -1,5 +1,5 @@
 (** Lemmas about the index computations of Wrapper/Run.v: row-major ravel,
-    and the closed forms of every view the template creates. *)
+    and the closed forms of every wview the template creates. *)
 From Coq Require Import List Arith ZArith Lia Bool.
 From OW Require Import Base.Interleave Wrapper.Spec Wrapper.Run.
 Import ListNotations.
@@ -88,14 +88,14 @@ Proof.
   - inversion H; subst. rewrite Nat.eqb_refl. simpl. apply IH. reflexivity.
 Qed.
 
-Lemma contiguous_iff v : contiguous v = true <-> voffsets v = seq (vstart v) (lprod (vdims v)).
+Lemma contiguous_iff v : contiguous v = true <-> voffsets v = seq (wstart v) (lprod (wdims v)).
 Proof. unfold contiguous. apply list_nat_eqb_eq. Qed.
 
 (** A slice whose strides are the row-major strides of its own extents
     (a full-width block of the parent) reshapes to any shape of the same size. *)
 Lemma reshape_block : forall v newshape,
-  vstr v = strides (vdims v) -> lprod newshape = lprod (vdims v) ->
-  reshape v newshape = Some {| vstart := vstart v; vstr := strides newshape; vdims := newshape |}.
+  wstr v = strides (wdims v) -> lprod newshape = lprod (wdims v) ->
+  reshape v newshape = Some {| wstart := wstart v; wstr := strides newshape; wdims := newshape |}.
 Proof.
   intros v ns Hs Hl. unfold reshape. rewrite Hl, Nat.eqb_refl. simpl.
   assert (C : contiguous v = true).
@@ -104,33 +104,33 @@ Proof.
 Qed.
 
 Lemma voffsets_block : forall s ds,
-  voffsets {| vstart := s; vstr := strides ds; vdims := ds |} = seq s (lprod ds).
+  voffsets {| wstart := s; wstr := strides ds; wdims := ds |} = seq s (lprod ds).
 Proof. intros. unfold voffsets. simpl. apply ravel_offsets. Qed.
 
 (** A row: extents [1;..;1;n] and last stride 1. *)
 Lemma voffsets_row2 : forall s x n,
-  voffsets {| vstart := s; vstr := [x; 1]; vdims := [1; n] |} = seq s n.
+  voffsets {| wstart := s; wstr := [x; 1]; wdims := [1; n] |} = seq s n.
 Proof.
-  intros. unfold voffsets. simpl vdims. rewrite indices_cons1, indices_one, !map_map. simpl.
+  intros. unfold voffsets. simpl wdims. rewrite indices_cons1, indices_one, !map_map. simpl.
   apply seq_shift_map_gen. intros; lia.
 Qed.
 Lemma voffsets_row3 : forall s x y n,
-  voffsets {| vstart := s; vstr := [x; y; 1]; vdims := [1; 1; n] |} = seq s n.
+  voffsets {| wstart := s; wstr := [x; y; 1]; wdims := [1; 1; n] |} = seq s n.
 Proof.
-  intros. unfold voffsets. simpl vdims. rewrite !indices_cons1, indices_one, !map_map. simpl.
+  intros. unfold voffsets. simpl wdims. rewrite !indices_cons1, indices_one, !map_map. simpl.
   apply seq_shift_map_gen. intros; lia.
 Qed.
 
 Lemma reshape_row : forall v n,
-  voffsets v = seq (vstart v) n -> lprod (vdims v) = n ->
-  reshape v [n] = Some {| vstart := vstart v; vstr := [1]; vdims := [n] |}.
+  voffsets v = seq (wstart v) n -> lprod (wdims v) = n ->
+  reshape v [n] = Some {| wstart := wstart v; wstr := [1]; wdims := [n] |}.
 Proof.
   intros v n Ho Hl. unfold reshape. simpl lprod. rewrite Hl.
   replace (n * 1) with n by lia. rewrite Nat.eqb_refl. simpl.
   assert (C : contiguous v = true) by (apply contiguous_iff; rewrite Hl; exact Ho).
   rewrite C. reflexivity.
 Qed.
-Lemma voffsets_vec : forall s n, voffsets {| vstart := s; vstr := [1]; vdims := [n] |} = seq s n.
+Lemma voffsets_vec : forall s n, voffsets {| wstart := s; wstr := [1]; wdims := [n] |} = seq s n.
 Proof. intros. pose proof (voffsets_block s [n]) as H. simpl in H. rewrite Nat.mul_1_r in H. exact H. Qed.
 
 Lemma sequence_map_some {A T} (f : A -> option T) (g : A -> T) l :
@@ -156,7 +156,7 @@ Section TemplateViews.
   Proof. reflexivity. Qed.
 
   Lemma state_view_eq : forall i,
-    state_view sh (prologue sh) i = Some {| vstart := i * S; vstr := [1]; vdims := [S] |}.
+    state_view sh (prologue sh) i = Some {| wstart := i * S; wstr := [1]; wdims := [S] |}.
   Proof.
     intros i. unfold state_view. simpl.
     erewrite reshape_row.
@@ -168,14 +168,14 @@ Section TemplateViews.
   Lemma packed_state_view_offsets : forall i L,
     voffsets (packed_state_view sh i L) = seq (i * S) L.
   Proof.
-    intros. unfold packed_state_view, vslice, voffsets. cbn [vdims vstart vstr whole dS mk_shapes].
+    intros. unfold packed_state_view, vslice, voffsets. cbn [wdims wstart wstr whole dS mk_shapes].
     rewrite indices_cons1, indices_one, !map_map. simpl.
     apply seq_shift_map_gen. intros; lia.
   Qed.
 
   Lemma input_views_eq : forall ci,
     input_views sp sh (prologue sh) ci =
-    Some (map (fun k => {| vstart := (ci * nI + k) * T; vstr := [1]; vdims := [T] |}) (seq 0 (n_in sp))).
+    Some (map (fun k => {| wstart := (ci * nI + k) * T; wstr := [1]; wdims := [T] |}) (seq 0 (n_in sp))).
   Proof.
     intros ci. unfold input_views. simpl.
     rewrite (reshape_block _ [nI; T]); [| reflexivity | simpl; lia]. simpl.
@@ -188,7 +188,7 @@ Section TemplateViews.
 
   Lemma output_views_eq : forall i,
     output_views sp sh (prologue sh) i =
-    Some (map (fun k => {| vstart := (i * oK + k) * oT; vstr := [1]; vdims := [T] |}) (seq 0 (n_out sp))).
+    Some (map (fun k => {| wstart := (i * oK + k) * oT; wstr := [1]; wdims := [T] |}) (seq 0 (n_out sp))).
   Proof.
     intros i. unfold output_views. simpl.
     apply sequence_map_some. intros k _.
